@@ -25,6 +25,10 @@ fn run_line(line: &str) -> String {
     match cmd {
         "match" => codec::cmd_match(&mut t),
         "matchraw" => codec::cmd_matchraw(&mut t),
+        "hll_add" => codec::cmd_hll_add(&mut t),
+        "hll_hex" => codec::cmd_hll_hex(&mut t),
+        "hll_env" => codec::cmd_hll_env(&mut t),
+        "hex" => codec::cmd_hex(&mut t),
         _ => format!("HARNESS-ERROR unknown command {cmd}"),
     }
 }
